@@ -329,16 +329,42 @@ def _hist_apply(world, kind, msg):
         return 'EXC ' + type(e).__name__ + ' ' + str(e)[:60]
 
 
+def renderer_goldens():
+    """every operation as the only thing its process ever did (one fresh Python process per operation)"""
+    import subprocess
+    import sys
+    from mc.engine.harness import VERIF
+    n = len(HIST_KINDS) * len(_history_pool())
+    procs = [subprocess.Popen([sys.executable, '-m', 'mc.checks.c09', 'golden', str(k)], cwd=VERIF, stdout=subprocess.PIPE,
+                              stderr=subprocess.PIPE, text=True) for k in range(n)]
+    out = []
+    for pr in procs:
+        o, e = pr.communicate(timeout=600)
+        if pr.returncode != 0:
+            raise RuntimeError('golden process failed: ' + e[-300:])
+        out.append(json.loads(o))
+    return out
+
+
+def golden_main(n_):
+    import sys
+    pool = _history_pool()
+    ev = [(k, i) for k in HIST_KINDS for i in range(len(pool))]
+    k, i = ev[n_]
+    sys.stdout.write(json.dumps(_hist_apply(_hist_world(), k, CC.decoder().process(pool[i][1]))))
+    return 0
+
+
 def run_renderer_histories(args):
     """every sequence of `length` operations (renderer or render+convert-back kind x pool message) on ONE set of renderer
     objects and ONE decoded object per message; each step must give what fresh objects give"""
-    firsts, length = args
+    firsts, length = args[:2]
     p = Partial()
     pool = _history_pool()
     ev = [(k, i) for k in HIST_KINDS for i in range(len(pool))]
     golden = {}
-    for k, i in ev:
-        golden[(k, i)] = _hist_apply(_hist_world(), k, CC.decoder().process(pool[i][1]))
+    for n_, (k, i) in enumerate(ev):
+        golden[(k, i)] = args[2][n_] if len(args) > 2 else _hist_apply(_hist_world(), k, CC.decoder().process(pool[i][1]))
         if golden[(k, i)].startswith('EXC '):
             p.violation('renderer-history-golden|' + k, {'history': [[k, i]]}, '%s of %s with fresh objects: %s' % (k, pool[i][0], golden[(k, i)]))
     for first in firsts:
@@ -476,7 +502,7 @@ def replay(part, case):
         for j in h:
             got = _hist_apply(world, ev[j][0], msgs[ev[j][1]])
         k, i = ev[h[-1]]
-        gold = _hist_apply(_hist_world(), k, CC.decoder().process(pool[i][1]))
+        gold = renderer_goldens()[h[-1]]
         if len(h) == 1 and gold.startswith('EXC '):
             return [{'sig': 'renderer-history-golden|' + k, 'detail': gold}]
         if got != gold:
@@ -558,7 +584,8 @@ def main(tier, seed):
     rep.add_part('zero-subsets', run_zero_subsets(None), bounds={'editions': [2, 3, 4], 'section2': 2, 'compression_flag': 2, 'descriptor_lists': 4})
     nev = len(HIST_KINDS) * len(_history_pool())
     hl = 2 if tier == 'quick' else 3
-    p = merge_all(run_shards(run_renderer_histories, [([i], hl) for i in range(nev)]))
+    rgold = renderer_goldens()
+    p = merge_all(run_shards(run_renderer_histories, [([i], hl, rgold) for i in range(nev)]))
     rep.add_part('renderer-histories', p, bounds={'operations': HIST_KINDS, 'messages': [n_ for n_, _ in _history_pool()],
                                                   'history_length': hl, 'histories': nev ** hl},
                  rule='every sequence of renderings / render-and-convert-back operations on one set of renderer objects and one '
@@ -588,3 +615,9 @@ def main(tier, seed):
     p.n['nodes'], p.n['edges'] = p.n['exec'] + 1, p.n['exec']
     rep.add_part('cli', p, bounds={'invocations': p.n['exec'] * 2})
     return rep.finish()
+
+
+if __name__ == '__main__':
+    import sys
+    if len(sys.argv) > 2 and sys.argv[1] == 'golden':
+        sys.exit(golden_main(int(sys.argv[2])))
